@@ -18,7 +18,7 @@ import struct
 from .. import kafka_schema as KS
 from .. import wireshape as W
 from ..model import self_attr, unparse, walk_body_shallow
-from .util import expand, holds_mod, const_value, call_name, call_recv, calls_in, kwarg, need, norm, where
+from .util import concrete_values, expand, holds_mod, const_value, call_name, call_recv, calls_in, kwarg, need, norm, where
 
 TECHNIQUE = "wire-grammar extraction by symbolic evaluation of encoders, compared with a hand-transcribed Kafka schema; " \
             "abstract version-dispatch evaluation; tri-state read discipline"
@@ -176,7 +176,8 @@ def run(ctx):
             vb = hdr[1][2]
             if not problem:
                 if ver == "negotiated":
-                    if vb in ("0", "1", "2") or not vb.isidentifier():
+                    # derived from the negotiated version (R6 evaluates which value it takes); a literal is not
+                    if vb.lstrip("-").isdigit() or not (vb.isidentifier() or "api_version" in vb):
                         problem = "header: api version `%s` is not the negotiated version" % vb
                 elif vb != str(ver):
                     problem = "header: api version is `%s`, body layout is version %d" % (vb, ver)
@@ -291,19 +292,31 @@ def run(ctx):
         r.check(not problem, "%s#format-%d" % (em.qname, mag), "message format %d: %s" % (mag, problem), where(em, em.node),
                 "brokers reject the message (CRC/size mismatch) or store a different key/value")
     ems = ctx.func(KCQ + "._encode_message_set")
-    loops = [x for x in walk_body_shallow(ems.body) if isinstance(x, ast.For)]
-    ok = len(loops) == 1 and norm(loops[0].iter) == ems.params[1]
+    # the set encoder's own grammar: one uncounted loop over the caller's list; each entry is INT64 offset, INT32
+    # len(<encoded>), then exactly what _encode_message writes for that element (bindings `<each messages>.field`:
+    # the caller's message as given, not a re-stamped copy)
+    mterms, menv = W.encoder_terms(prog, ems)
+    endians |= menv.endians
+    want_msg, _e3 = W.encoder_terms(prog, em, {em.params[1]: "<each %s>" % ems.params[1]})
+    ok = len(mterms) == 1 and mterms[0][0] == "LOOP" and mterms[0][1] == ems.params[1]
     if ok:
-        packs = [c for c in ast.walk(loops[0]) if isinstance(c, ast.Call) and norm(c.func) == "struct.pack"]
-        apps = [c for c in ast.walk(loops[0]) if isinstance(c, ast.Call) and call_name(c) == "append"]
-        ok = len(packs) == 1 and isinstance(packs[0].args[0], ast.Constant) and W.parse_fmt(packs[0].args[0].value)[1] == ["q", "i"] and \
-            norm(packs[0].args[1]) == "offset" and norm(packs[0].args[2]).startswith("len(") and len(apps) == 2 and \
-            norm(apps[1].args[0]) == norm(packs[0].args[2])[4:-1] and apps[0].args[0] is packs[0]
-        endians.add(W.parse_fmt(packs[0].args[0].value)[0]) if packs else None
-    if ok:
-        encs = [c for c in ast.walk(loops[0]) if isinstance(c, ast.Call) and call_name(c) == "_encode_message"]
-        rebinds = [x for x in ast.walk(loops[0]) if isinstance(x, ast.Assign) and any(unparse(t) == unparse(loops[0].target) for t in x.targets)]
-        ok = bool(encs) and all(len(c.args) == 1 and norm(c.args[0]) == unparse(loops[0].target) for c in encs) and not rebinds
+        body = mterms[0][2]
+
+        def is_i64(t):
+            return (t[0] == "P" and t[1] == "INT64") or (t[0] == "ALT" and all(len(b) == 1 and b[0][0] == "P" and b[0][1] == "INT64" for c, b in t[1]))
+        ok = len(body) >= 3 and is_i64(body[0]) and body[1][0] == "P" and body[1][1] == "INT32" and str(body[1][2]).startswith("len(")
+        if ok:
+            rest = body[2:]
+
+            def arms_equal(ts):
+                """every non-empty alternative (a dispatch on the set-level magic) is the message grammar itself"""
+                if ts == want_msg:
+                    return True
+                if len(ts) == 1 and ts[0][0] == "ALT":
+                    live = [b for c, b in ts[0][1] if b]
+                    return bool(live) and all(arms_equal(b) for b in live)
+                return False
+            ok = arms_equal(rest)
     r.check(ok, "%s#entry-layout" % ems.qname, "message-set entries are not (INT64 offset, INT32 size, the caller's message as given) in list order",
             where(ems, ems.node), "messages are re-stamped with another format inside the set: inner messages of a compressed wrapper "
             "lose their timestamp / disagree with the wrapper's format")
@@ -350,19 +363,18 @@ def run(ctx):
     samples = [0, 2, 3, 9]
     for name in ("encode_produce_request", "encode_fetch_request"):
         f = ctx.func("%s.%s" % (KCQ, name))
-        arms, res = eval_version_arms(f, "api_version", samples)
-        need(arms is not None, "version clamp not found in %s" % name)
+        # the version written into the header, evaluated concretely for each negotiated version along every path to the
+        # header call (an if/else clamp, a conditional expression, min(...): whatever computes it)
+        cfv = ctx.cfg(f)
+        hv = [c for c in calls_in(f, "_encode_message_header")]
+        need(bool(hv), "header call not found in %s" % name)
+        hnode = cfv.containing(hv[0])[0]
+        hexpr = kwarg(hv[0], "api_version", 3)
         vals = {}
-        for s in samples:
-            body = arms[res[s]][1] if res[s] is not None else []
-            v = None
-            hv = [c for c in calls_in(f, "_encode_message_header")]
-            hvar = norm(kwarg(hv[0], "api_version", 3)) if hv else None
-            for st in body:
-                if isinstance(st, ast.Assign) and norm(st.targets[0]) == hvar:
-                    v = eval(compile(ast.Expression(st.value), "<v>", "eval"), {"__builtins__": {}}, {"api_version": s})
-            vals[s] = v
-        bound = bool(hv) and hvar is not None and hvar.isidentifier() and hvar != "api_version"
+        for s_ in samples:
+            got = concrete_values(cfv, hnode.id, hexpr, {"api_version": s_}) if hexpr is not None else {None}
+            vals[s_] = list(got)[0] if len(got) == 1 else None
+        bound = hexpr is not None and norm(hexpr) != "api_version"
         r.check(bound and vals == {0: 0, 2: 2, 3: 2, 9: 2}, "%s.%s#header-version" % (KCQ, name),
                 "header version for negotiated {0,2,3,9} is %s; must be 0 for 0 and 2 for >= 2" % vals, where(f, f.node),
                 "broker advertising max version 9: request carries version 9 with a version-2 body", facts=["%s" % vals])
